@@ -15,6 +15,7 @@ pub mod c12;
 pub mod c13;
 pub mod c14;
 pub mod c15;
+pub mod c16;
 pub mod c17;
 pub mod c18;
 pub mod c19;
@@ -38,6 +39,7 @@ pub fn lookup(id: &str) -> Option<Entry> {
         "C13" => Entry { id: "C13", run: c13::run, replay: c13::replay },
         "C14" => Entry { id: "C14", run: c14::run, replay: c14::replay },
         "C15" => Entry { id: "C15", run: c15::run, replay: c15::replay },
+        "C16" => Entry { id: "C16", run: c16::run, replay: c16::replay },
         "C17" => Entry { id: "C17", run: c17::run, replay: c17::replay },
         "C18" => Entry { id: "C18", run: c18::run, replay: c18::replay },
         "C19" => Entry { id: "C19", run: c19::run, replay: c19::replay },
